@@ -27,7 +27,11 @@ Proof.
   induction qs as [|q qs IH]; intros s acc.
   - exists s, (mkTs [] [] acc COk). split; [apply steps_refl|]. split; [reflexivity|].
     simpl. rewrite app_nil_r. reflexivity.
-  - destruct q as [t|t|fv sc]; simpl.
+  - destruct q as [t|t|fv sc|]; simpl.
+    4: { (* the build fails for a reason of its own *)
+      exists s, (mkTs [] [] acc CErr). split; [|split; [reflexivity|]].
+      - apply steps_one. reflexivity.
+      - rewrite app_nil_r. reflexivity. }
     + (* IsCertainlyClusterScoped *)
       unfold is_cluster_scoped, is_ns_scoped.
       destruct (precomputed t) as [b|] eqn:EP.
@@ -148,7 +152,7 @@ Proof.
   - (* start the next query *)
     destruct rest as [|q rest]; [discriminate|]. simpl in TR. apply Bool.andb_true_iff in TR. destruct TR as [Hq TR].
     inversion HT; subst s1 th1; clear HT. split; [assumption|]. split; [|auto].
-    destruct q as [t|t|fv sc]; simpl in *.
+    destruct q as [t|t|fv sc|]; simpl in *; [| | | discriminate Hq].
     + destruct (precomputed t) as [b|] eqn:EP.
       * split; simpl; [reflexivity | apply sh_nil | intros t0 X; discriminate X | assumption |].
         rewrite <- TA. rewrite <- app_assoc. reflexivity.
